@@ -52,6 +52,12 @@ def c05(tier, seed):
     for y in years:
         crop = rnd.choice(["Cotton", "CottonGDD"]) if y in (1984, 1987, 1988) else rnd.choice(["Cotton", "CottonGDD", "Sorghum", "SorghumGDD", "Maize", "Sunflower", "Soybean"])
         scs.append(L.builtin_scenario(crop, y, irr={"method": 1, "kw": {"SMT": [rnd.choice([20, 20, 30])] * 4, "MaxIrr": rnd.choice([6, 6, 8])}}))
+    # a water table a few centimetres above the crop's maximum rooting depth, i.e. inside the lower half of the bottom compartment of the profile
+    # the model deepens for the crop (the table stops the roots although it lies below every compartment centre)
+    for crop, zmax in (("Wheat", 1.5), ("Maize", 2.3), ("Sorghum", 2.0)) if tier != "thorough" else (("Wheat", 1.5), ("Maize", 2.3), ("Sorghum", 2.0), ("Cotton", 2.0), ("Sunflower", 2.0), ("Barley", 1.3)):
+        for eps in ((0.02,) if tier != "thorough" else (0.01, 0.02, 0.04)):
+            scs.append(S(crop, "SandyLoam", seed=rnd.randrange(10 ** 6), irr={"method": 1, "kw": {"SMT": [70] * 4}},
+                         gw={"water_table": "Y", "dates": ["2001/04/20"], "values": [round(zmax - eps, 2)]}))
     scs += L.hard_cases(rnd)
     return scs
 
